@@ -14,7 +14,7 @@ def chars(s):
 
 def setup(mode, n, directives):
     """-> (module, extra_files, cfg_text): RELEASE_TYPES etc. go into a generated wrapper module."""
-    import productmd.common as C
+    from . import enums as C
     mod, files, lines = core.gen_module("ReleaseId", {"KnownTypes": [chars(t) for t in C.RELEASE_TYPES],
                                                       "Shorts": set(tuple(chars(s)) for s in SHORTS),
                                                       "Versions": set(tuple(chars(v)) for v in VERSIONS)})
@@ -91,14 +91,12 @@ def eval_id(case):
 
 
 def run(ctx):
-    import productmd.common as C
+    from . import enums as C
     ctx.rule = ("predicates: every word of length <= 5/6 over the 7 character classes of the quantifier, labelled by the documented "
                 "grammar in ReleaseId.tla, against the three real predicates and create_release_id (2/3 representatives per class); "
                 "round trip: 6 shorts (3 dashed) x 7 versions (numeric, dotted, free-form, equal to a type name) x every known type "
                 "x (no base product | 75 base products). non-trivial = distinct word / id tuple")
-    ctx.assumptions += ["RELEASE_TYPES is read from the working tree and handed to the spec as a constant"]
-    if sorted(C.RELEASE_TYPES) != sorted(set(C.RELEASE_TYPES)) or "ga" not in C.RELEASE_TYPES:
-        raise core.MachineryError("RELEASE_TYPES table is not usable: %s" % C.RELEASE_TYPES)
+    ctx.assumptions += ["the nine known release types are the documented table (harness/enums.py), handed to the spec as a constant"]
     words = []
     n = 5 if ctx.quick else 6
     mod, files, cfg = setup("words", n, ["CONSTRAINT Emit"])
